@@ -231,10 +231,17 @@ func buildNet(silent bool, n, t int, seed uint64, ids []uint16) *snet {
 			pick := func(topic []byte, expected int) []uint16 {
 				nw.mu.Lock()
 				defer nw.mu.Unlock()
-				if s, ok := nw.picks[string(topic)]; ok {
-					return s
+				s, ok := nw.picks[string(topic)]
+				if !ok {
+					s = all[:expected]
 				}
-				return all[:expected]
+				if seed&1 == 1 && len(s) > 1 {
+					// the application's pick need not be ordered (nor ordered alike at every node): every node returns the same
+					// set, rotated by its own identifier
+					r := int(id) % len(s)
+					s = append(append([]uint16{}, s[r:]...), s[:r]...)
+				}
+				return s
 			}
 			nw.nodes = append(nw.nodes, threshold.SilentScheme(id, capLog{nw, id}, kgf, sf, t-1, nw.sender(id), membership, pick))
 		} else {
